@@ -6,12 +6,14 @@ import (
 
 	"github.com/sboehler/knut/lib/common/compare"
 	"github.com/sboehler/knut/lib/common/date"
+	"github.com/sboehler/knut/lib/common/dict"
 	"github.com/sboehler/knut/lib/common/multimap"
 	"github.com/sboehler/knut/lib/common/set"
 	"github.com/sboehler/knut/lib/common/table"
 	"github.com/sboehler/knut/lib/journal"
 	"github.com/sboehler/knut/lib/journal/performance"
 	"github.com/sboehler/knut/lib/model/account"
+	"github.com/sboehler/knut/lib/model/commodity"
 )
 
 type Query struct {
@@ -27,9 +29,10 @@ func (q Query) Execute(j *journal.Builder, r *Report) *journal.Processor {
 			if !days.Has(d) {
 				return nil
 			}
+			// floating point addition is not associative: sum in a fixed order
 			var total float64
-			for _, v := range d.Performance.V1 {
-				total += v
+			for _, com := range dict.SortedKeys(d.Performance.V1, commodity.Compare) {
+				total += d.Performance.V1[com]
 			}
 			for com, v := range d.Performance.V1 {
 				ss := q.Universe.Locate(com)
